@@ -8,6 +8,7 @@
 #include <nstd/Array.hpp>
 #include <nstd/PoolList.hpp>
 #include "vf.h"
+#include "freelist.h"
 #include "tracked.h"
 
 #ifndef CONT
@@ -72,6 +73,9 @@ static unsigned indexOf(C& c, const C::Iterator& it)
 
 static void check(C& c, Model& m, bool addresses)
 {
+#if CONT != 2
+  vf_checkFreeList(c);
+#endif
   vf_assert(c.size() == m.n, "size() == model");
   vf_trace(c.size());
   vf_assert(c.isEmpty() == (m.n == 0), "isEmpty() == model");
